@@ -799,6 +799,49 @@ def gen_libraries(r, n):
     return libs
 
 
+def targeted_libraries(disagreements):
+    """Library descriptions that reach the (sgroup, spointer, intent, deref, cdesc) combinations on which the two
+    lookup paths disagree (translator finding) - the oracle then looks at what Shroud really emits for them."""
+    types = {"native": "int", "bool": "bool", "char": "char", "string": "std::string", "void": "void",
+             "vector": "std::vector<int>", "struct": "C04tpt", "shadow": "C04tcls"}
+    seen, out = set(), {}
+    for c in disagreements:
+        key = (c["lang"], c["sgroup"], c["spointer"], c["intent"], c["deref"], c["cdesc"])
+        if key in seen or c["sgroup"] not in types or c["spointer"] in ("[]", "*[]") or c["specialize"]:
+            continue
+        if c["lang"] == "c" and c["sgroup"] in ("string", "vector", "shadow"):
+            continue
+        if c["lang"] == "c" and "&" in c["spointer"]:
+            continue
+        seen.add(key)
+        decl = "%s %s" % (types[c["sgroup"]], "" if c["spointer"] == "scalar" else c["spointer"])
+        attrs = ""
+        if c["spointer"] != "scalar":
+            attrs += "+intent(%s)" % c["intent"]
+        elif c["intent"] != "in":
+            continue
+        if c["deref"]:
+            attrs += "+deref(%s)" % c["deref"]
+            if c["deref"] in ("pointer", "allocatable") and c["sgroup"] == "native":
+                attrs += "+dimension(3)"
+        if c["cdesc"]:
+            attrs += "+cdesc+rank(1)"
+        for cfi in (False, True):
+            lst = out.setdefault((c["lang"], cfi), [])
+            if len(lst) < 40:
+                lst.append({"decl": "void c04t%d(%sx %s)" % (len(lst), decl, attrs)})
+    libs = []
+    for (lang, cfi), decls in sorted(out.items()):
+        pre = [{"decl": "struct C04tpt { int a; double b; };"}]
+        if lang != "c":
+            pre.append({"decl": "class C04tcls", "declarations": [{"decl": "C04tcls()"}]})
+        for k, dcl in enumerate(decls):
+            # one library per declaration: a combination Shroud rejects must not hide the others
+            lib = libgen.Lib("c04t", lang, pre + [dcl], options={"wrap_python": False, "wrap_lua": False, "F_CFI": cfi})
+            libs.append(("targeted-%s%s-%d" % ("c" if lang == "c" else "cxx", "-cfi" if cfi else "", k), lib))
+    return libs[:120]
+
+
 # ================================================================== run
 def process(ctx, tag, yaml_path, options, language, wv, replay, stats, drv_lines, drv_meta, thorough, user_dirs=()):
     res = run_library(ctx, tag, yaml_path, options, language, wv, replay)
@@ -831,12 +874,14 @@ def corpus_lines():
 def run(ctx):
     thorough = ctx.tier == "thorough"
     r = common.rng("c04")
+    disagreements = []
     from tools import extract_interop
     try:
         info = extract_interop.regenerate()
         ctx.note("translator", info)
-        if info["lookup_disagree_c"] or info["lookup_disagree_cxx"]:
-            ctx.note("lookup_disagreements", info["lookup_disagree_c"] + info["lookup_disagree_cxx"])
+        disagreements = info.pop("disagreements", [])
+        if disagreements:
+            ctx.note("lookup_disagreements", disagreements[:5])
     except (extract_interop.TranslatorError, ip.ParseError) as e:
         ctx.tie_broken("translator", "tools/extract_interop.py cannot translate the working tree: %s" % e)
     ok = ctx.lean(MODULES, THEOREMS, extra_targets=("drv_interop",))
@@ -882,6 +927,11 @@ def run(ctx):
             process(ctx, n, shroudrun.corpus_yaml(y), opts, lang, wv, {"corpus": n}, stats, drv_lines, drv_meta, thorough, ud)
         # ---- generated libraries
         for tag, lib in gen_libraries(r, 24 if thorough else 8):
+            text = lib.yaml()
+            y = shroudrun.write_yaml(work, tag + ".yaml", text)
+            process(ctx, tag, y, [], None, False, {"yaml": text}, stats, drv_lines, drv_meta, thorough)
+        # ---- inputs aimed at lookup-path disagreements found by the translator
+        for tag, lib in targeted_libraries(disagreements):
             text = lib.yaml()
             y = shroudrun.write_yaml(work, tag + ".yaml", text)
             process(ctx, tag, y, [], None, False, {"yaml": text}, stats, drv_lines, drv_meta, thorough)
